@@ -15,7 +15,7 @@ import sys
 import traceback
 
 from .loader import AnalysisError, Program
-from .report import Ctx, Timer, load_known, match_known, write_evidence, write_replay
+from .report import Ctx, Timer, Undischarged, load_known, match_known, write_evidence, write_replay
 
 PROPS = [f"C{i:02d}" for i in range(1, 21)]
 
@@ -39,7 +39,10 @@ def run_property(prop: str, tier: str, seed: int, prog: Program | None = None, q
         if prog is None:
             prog = Program()
         ctx = Ctx(prop, prog, tier)
-        mod.run(ctx)
+        try:
+            mod.run(ctx)
+        except Undischarged:
+            pass  # recorded as a finding
         if tier == "thorough":
             from . import selftest
 
